@@ -130,7 +130,7 @@ func pkgAPIs() []*pkgAPI {
 func TestVerifPkgAPIs(t *testing.T) {
 	lib.Mandatory("honest-verified", "altered", "rejected", "alt:trunc", "alt:append", "alt:bitflip", "alt:s-plus-l",
 		"alt:hint-order", "alt:hint-padding", "alt:ctx", "alt:msg", "alt:other-key", "alt:ctx-256",
-		"ctx-256-sign-refused", "randomized-verified", "randomized-differs", "scheme-api-agrees", "nil-ctx-equals-empty")
+		"ctx-256-sign-refused", "randomized-verified", "randomized-differs", "scheme-api-agrees", "nil-ctx-equals-empty", "alt:ctx-256-wrap")
 	apis := pkgAPIs()
 	for _, a := range apis {
 		if a.scheme.Name() != a.name || a.scheme.SignatureSize() != a.sigSize || a.scheme.SeedSize() != a.seedSize {
@@ -295,6 +295,12 @@ func pkgCase(a *pkgAPI, k, mi int) {
 				tgc := &target{subject: subject, entry: "Verify", mon: monPkg, detail: det,
 					verify: func(x []byte) bool { return a.verify(pk, m2, c2, x) }}
 				tgc.expectReject("ctx-msg-boundary", sig)
+			}
+			if len(msg) >= 256 {
+				c2, m2 := cat(ctx, msg[:256]), clip(msg[256:])
+				tgc := &target{subject: subject, entry: "Verify", mon: monPkg, detail: det,
+					verify: func(x []byte) bool { return a.verify(pk, m2, c2, x) }}
+				tgc.expectReject("ctx-256-wrap", sig, "ctx2_len", len(c2))
 			}
 			for _, c2 := range [][]byte{cat(ctx, make([]byte, 256-len(ctx))), cat(ctx, r.Bytes(256)), make([]byte, 256), r.Bytes(1000)} {
 				c2 := c2
